@@ -265,3 +265,16 @@ func (p *Prog) Const(rel, name string) (string, bool) {
 	}
 	return c.Val().ExactString(), true
 }
+
+// FnOf returns the declaration of a module function object; nil for functions without source in the load.
+func (p *Prog) FnOf(fo *types.Func) *Fn {
+	if fo == nil || fo.Pkg() == nil {
+		return nil
+	}
+	for _, fn := range p.Funcs(fo.Pkg().Path()) {
+		if fn.Obj == fo {
+			return fn
+		}
+	}
+	return nil
+}
